@@ -17,13 +17,13 @@ CHECKS = {
  "C04": ("exploration", "runtime monitor: reference-model oracle + panic events, exhaustive small-block enumeration",
          "Rank, linear complexity and Maurer results compared with GF(2) elimination / Berlekamp-Massey / direct Maurer references; every rank 0..32, every m-bit block for m<=16 (18 thorough) as single-block calls (exhaustive at those m), special blocks at m=500/1000/5000, pattern-starved Maurer initialisation, prescribed Maurer recurrence gaps (powers of two +-1 up to 65537; around 2^23 on 62 Mbit in thorough); a panic on an admissible input is a violation.", REF, "4/C04"),
  "C05": ("exploration", "runtime monitor: reference-model oracle (independent FFT validated by direct summation)",
-         "DFT test compared with the statistic computed from an independent FFT whose bins are validated against direct summation in the same run; N1 is an interval when a magnitude is within 1e-9*sqrt(n) of the threshold. n up to 131073 quick; 2^22, smooth bin counts (s*2^k) up to 4.8 Mbit and one 10^8-bit case (2^27 points) thorough; re-run under a non-power-of-two CPU count.", REF, "4/C05"),
+         "DFT test compared with the statistic computed from an independent FFT whose bins are validated against direct summation in the same run; N1 is an interval when a magnitude is within 1e-9*sqrt(n) of the threshold. n up to 131073 quick; 2^22, smooth bin counts (s*2^k) up to 4.8 Mbit and one 10^8-bit case (2^27 points) thorough; thorough also sends a 24-Mbit sequence through a 32-bit build of the library (child process; C01-C04 do the same with 24 and 45 Mbit); re-run under a non-power-of-two CPU count.", REF, "4/C05"),
  "C06": ("exploration", "runtime monitor: exact-arithmetic oracle",
-         "Igamc compared with exact finite sums for Q(k/2,x) in 160-bit arithmetic at the property's own tolerance, plus exactly-1 for x<=0, range and monotonicity on (x, x(1+10^-u)) pairs; shapes k/2 for all k<=128 and seeded k<=10000, x dense around x=1, x=a and in both tails; plus a concurrent hammer (8 goroutines, two per shape, shapes in arithmetic families with strides 1..2048) whose results must be bit-identical to solo calls.", REF, "4/C06"),
+         "Igamc compared with exact finite sums for Q(k/2,x) in 160-bit arithmetic at the property's own tolerance, plus exactly-1 for x<=0, range and monotonicity on (x, x(1+10^-u)) pairs; shapes k/2 for all k<=128 and seeded k<=10000, x dense around x=1, x=a and in both tails, for small shapes down to the smallest subnormal and around machine epsilon; plus a concurrent hammer (8 goroutines, two per shape, shapes in arithmetic families with strides 1..2048) whose results must be bit-identical to solo calls.", REF, "4/C06"),
  "C12": ("exploration", "runtime monitor: exhaustive comparison with exact integer rule; reference binning",
-         "Threshold checked for every s in 1..10^6 (the whole quantified range) against the exact integer inequality; ThresholdQ against reference binning + exact Q(9/2,V/2) on seeded and edge-valued lists, each under 5 permutations (bit-identical); a quarter of the evaluations follow a hostile out-of-domain call in the same process.", REF, "4/C12"),
+         "Threshold checked for every s in 1..10^6 (the whole quantified range) against the exact integer inequality, sequentially and again from 16 goroutines walking the range in different orders; ThresholdQ against reference binning + exact Q(9/2,V/2) on seeded and edge-valued lists, each under 5 permutations (bit-identical); a quarter of the evaluations follow a hostile out-of-domain call in the same process.", REF, "4/C12"),
  "C19": ("exploration", "runtime monitor: closed-form and direct-summation oracles",
-         "fft.Transform against closed forms (every impulse position and tone frequency for N<=2^8 quick / 2^10 thorough, seeded above), an independent FFT on all bins and direct summation; Inverse round trip; constructor contract for all n<=4096, seeded n, limits; wrong-length slices must be refused and left untouched. N up to 2^16 quick, 2^20 thorough; re-run under a non-power-of-two CPU count (taskset) and, in thorough, with a 32-bit build.", REF, "4/C19"),
+         "fft.Transform against closed forms (every impulse position and tone frequency for N<=2^8 quick / 2^10 thorough, seeded above), an independent FFT on all bins and direct summation; Inverse round trip; constructor contract for all n<=4096, seeded n, limits; wrong-length slices must be refused and left untouched; one transformer shared by 8 goroutines (tones with closed-form spectra, round trip). N up to 2^16 quick, 2^20 thorough; re-run under a non-power-of-two CPU count (taskset) and, in thorough, with a 32-bit build.", REF, "4/C19"),
 }
 
 WF = "Trusted base: Go runtime (scheduler, race detector, deadlock detector), the harness's recording reader and registry wrappers (internal/mon), the reference decision rule (internal/oracle). randomness.TestMethodArr is the seam for runner stubs; no hook is compiled into /repo. Schedules covered are those produced by the stated GOMAXPROCS/taskset/delay plans; the evidence counts distinct ones."
